@@ -15,6 +15,8 @@ import os
 PARTS = ["tables", "signatures", "evalprogs", "effects", "regex", "scalars", "scalars_key", "scalars_chord", "defaults"]
 PARTS += ["hkshape"]      # no generated file: the pinned shape of util._bipartite_match (C05)
 PARTS += ["ioload"]       # mir_eval/io.py loaders -> MirGen/IOLoad.lean (C20)
+PARTS += ["chordfns"]
+PARTS += ["chordfns_rotate"]
 
 
 def write_if_changed(path, text):
